@@ -28,6 +28,7 @@ import (
 	"sort"
 	"strings"
 	"sync"
+	"sync/atomic"
 	"testing"
 	"time"
 
@@ -45,6 +46,7 @@ const (
 	c10HASealCfgClass = "C10-ha-promoted-standby-namespace-seal-config-stale"
 	c10HAOpenClass    = "C10-ha-promoted-standby-namespace-open-after-manual-seal"
 	c10HAReadClass    = "C10-ha-standby-entry-unreadable-although-keyring-has-its-term"
+	c10HATakeOverFail = "C10-ha-standby-failed-to-take-over-valid-state"
 	c10HAUnreadable   = "C10-ha-entry-unreadable-after-failover"
 	c10HAValidRefused = "C10-ha-valid-key-refused-after-failover"
 	c10HAKeyringDiff  = "C10-ha-keyring-differs-after-failover"
@@ -103,6 +105,37 @@ func (s *c10HAStore) Delete(ctx context.Context, key string) error {
 		s.announce(key)
 	}
 	return err
+}
+
+// c10HALocks is one node's view of the HA backend: it counts how often that node acquired the
+// HA lock, i.e. how often it started to take over (state of the node itself, no log text).
+type c10HALocks struct {
+	physical.HABackend
+	acquired *atomic.Int32
+}
+
+func (b *c10HALocks) LockWith(key, value string) (physical.Lock, error) {
+	l, err := b.HABackend.LockWith(key, value)
+	if err != nil {
+		return nil, err
+	}
+	return &c10HALock{inner: l, acquired: b.acquired}, nil
+}
+
+type c10HALock struct {
+	inner    physical.Lock
+	acquired *atomic.Int32
+}
+
+func (l *c10HALock) Unlock() error                { return l.inner.Unlock() }
+func (l *c10HALock) Value() (bool, string, error) { return l.inner.Value() }
+
+func (l *c10HALock) Lock(stopCh <-chan struct{}) (<-chan struct{}, error) {
+	ch, err := l.inner.Lock(stopCh)
+	if err == nil && ch != nil {
+		l.acquired.Add(1)
+	}
+	return ch, err
 }
 
 // c10KRSnap is the key material of one barrier as the exported accessors show it.
@@ -166,8 +199,9 @@ func (a c10KRSnap) termsDiff(b c10KRSnap) string {
 }
 
 type c10HANode struct {
-	name string
-	v    *vCore
+	name     string
+	v        *vCore
+	acquired atomic.Int32 // times this node acquired the HA lock
 }
 
 // c10HA is one HA pair plus the reference model.
@@ -245,8 +279,9 @@ func (h *c10HA) sby() *c10HANode {
 
 func (h *c10HA) newNode(name, addr string, ha bool) *c10HANode {
 	conf := testCoreConfig(&vT{h.t}, h.store, vLogger())
+	n := &c10HANode{name: name}
 	if ha {
-		conf.HAPhysical = h.haPhy
+		conf.HAPhysical = &c10HALocks{HABackend: h.haPhy, acquired: &n.acquired}
 		conf.RedirectAddr = addr
 	}
 	conf.DisableCache = true
@@ -259,7 +294,8 @@ func (h *c10HA) newNode(name, addr string, ha bool) *c10HANode {
 	if err != nil {
 		h.t.Fatalf("verif: NewCore: %v", err)
 	}
-	return &c10HANode{name: name, v: &vCore{t: h.t, Core: core, Probe: h.probe, Phys: h.store, Rec: rec, Root: h.rootToken}}
+	n.v = &vCore{t: h.t, Core: core, Probe: h.probe, Phys: h.store, Rec: rec, Root: h.rootToken}
+	return n
 }
 
 // poll waits (bounded) for cond; it never decides a verdict.
@@ -815,6 +851,7 @@ func (h *c10HA) failover(how string) bool {
 	for _, sc := range h.scopes() {
 		pre[sc] = c10SnapBarrier(h.barrierOn(old, sc))
 	}
+	acq0 := nw.acquired.Load()
 	switch how {
 	case "seal":
 		if err := TestCoreSeal(old.v.Core); err != nil {
@@ -829,8 +866,27 @@ func (h *c10HA) failover(how string) bool {
 		}
 	}
 	h.step("failover", "active node %s: %s", old.name, how)
-	if !c10Poll(30*time.Second, func() bool { return c10IsActive(nw.v.Core) }) {
-		h.giveUp("standby %s did not become active within the bound after %s of %s", nw.name, how, old.name)
+	// wait (bounded) until the standby is active - or has visibly given up: it is sealed (a node
+	// whose key upgrades fail on take-over shuts itself down), or it acquired the HA lock a second
+	// time without ever finishing its active-state setup
+	gaveUp := func() bool {
+		c := nw.v.Core
+		return c.Sealed() || (nw.acquired.Load()-acq0 >= 2 && c.Standby())
+	}
+	c10Poll(30*time.Second, func() bool { return c10IsActive(nw.v.Core) || gaveUp() })
+	if !c10IsActive(nw.v.Core) {
+		h.store.setHold(false)
+		attempts := nw.acquired.Load() - acq0
+		if attempts == 0 && !nw.v.Core.Sealed() {
+			// still a healthy standby waiting for the lock: slow, not failed
+			h.giveUp("standby %s did not acquire the HA lock within the bound after %s of %s", nw.name, how, old.name)
+			return false
+		}
+		if !gaveUp() {
+			h.giveUp("standby %s acquired the HA lock after %s of %s but did not finish its active-state setup within the bound", nw.name, how, old.name)
+			return false
+		}
+		h.takeOverFailed(nw, old, how, int(attempts))
 		return false
 	}
 	h.store.setHold(false)
@@ -865,6 +921,32 @@ func (h *c10HA) failover(how string) bool {
 	h.compareKeyrings(nw, pre)
 	h.lagged = map[string]bool{}
 	return !h.failed
+}
+
+// takeOverFailed: the standby acquired the HA lock and gave up (it sealed itself, or fell back to
+// standby and tried again). If what the previously active node left in storage is a consistent
+// key state - a fresh core opens the root barrier and every namespace with the currently valid
+// shares and reads every entry - the standby failed to complete the upgrade path on a valid state.
+func (h *c10HA) takeOverFailed(nw, old *c10HANode, how string, attempts int) {
+	sealed := nw.v.Core.Sealed()
+	state := fmt.Sprintf("node %s acquired the HA lock %d time(s) after %s of %s and is now sealed=%v standby=%v", nw.name, attempts, how, old.name, sealed, nw.v.Core.Standby())
+	h.step("failover", "%s: the take-over failed", state)
+	h.r.Count("take_overs_given_up", 1)
+	for i, n := range h.nodes {
+		if n == nw {
+			h.active = i // for the shutdown order only
+		}
+	}
+	before := h.r.NViolations()
+	h.endState()
+	if h.inconc {
+		return
+	}
+	if h.failed || h.r.NViolations() > before || len(h.stale) > 0 || len(h.findings) > 0 {
+		// storage itself is not in a state a fresh core can open: the classes recorded say so
+		return
+	}
+	h.viol(c10HATakeOverFail, "%s; it did not complete the upgrade path although the state the active node left is valid: a fresh core on the same store opened the root barrier and every namespace (%d) with the currently valid shares, refused the superseded ones and read every entry (%d) written before", state, len(h.nsPaths), len(h.data))
 }
 
 // compareKeyrings: the promoted node's in-memory keyrings against what the node that was active
@@ -1538,4 +1620,283 @@ func TestVerif_C10_HAPair(t *testing.T) {
 	r.Require("entries_read_back", 800/div)
 	r.Require("standby_reads_while_behind_failed_legitimately", 2/div)
 	r.Require("standby_rereads_after_late_upgrade_notice", 2/div)
+}
+
+
+// ---------------------------------------------------------------- the promotion sequence itself, without an HA pair
+
+// TestVerif_C10_PromotionSequence drives the product's own take-over sequence
+// (Core.performKeyUpgrades: root barrier, then every unsealed namespace barrier) directly: a
+// second barrier instance on the same store plays the active node and rotates encryption keys
+// (with or without leaving the upgrade entry), rotates the root key, writes; the core's own
+// barrier of that scope is the node that takes over: it serves reads while behind, runs the
+// sequence, and must end with an identical keyring and read everything.
+type c10PromoScope struct {
+	name   string
+	local  barrier.SecurityBarrier
+	remote barrier.SecurityBarrier
+	prefix string
+	// upgrade entries present from the local node's term to the newest one
+	intact  bool
+	entries map[string][]byte
+}
+
+func TestVerif_C10_PromotionSequence(t *testing.T) {
+	seed := kit.Seed(10)
+	shard, nshards := kit.Shard()
+	r := kit.NewResult(t, "c10-promotion-sequence", seed, "one unsealed core with a separately sealed namespace (Shamir and stored-key root seal alternating); for the root barrier and for the namespace barrier a second barrier instance on the same store, unsealed with the same root key, plays the active node: an enumerated matrix {0..2 encryption-key rotations before} x {no root-key rotation, root-key rotation, root-key rotation followed by another encryption-key rotation} x {scope: namespace, root, both} plus seeded sequences (rotate with/without upgrade entry, destroy an upgrade entry, root-key rotation, rotation config, puts); the core's own barrier serves reads while it is behind (entries of terms it lacks fail, legitimately), then the core runs its take-over sequence Core.performKeyUpgrades. With every upgrade entry present from its term to the newest the sequence must succeed, the core's keyring of each scope must equal the active instance's (root key bytes, every term key, active term), every entry must read back on it and its own write must read back on the other instance; with a missing upgrade entry the sequence may refuse (the node shuts down and is unsealed again), never end with different keys. Every case is distinct")
+	defer r.Write(t)
+	type pc struct {
+		scope      string // ns | root | both
+		before     int
+		rootRot    int // 0 none, 1 rotate-root, 2 rotate-root then rotate
+		seededOps  int
+	}
+	var cases []pc
+	for _, sc := range []string{"ns", "root", "both"} {
+		for before := 0; before <= 2; before++ {
+			for rr := 0; rr <= 2; rr++ {
+				cases = append(cases, pc{scope: sc, before: before, rootRot: rr})
+			}
+		}
+	}
+	for k := 0; k < kit.N(30, 400); k++ {
+		cases = append(cases, pc{scope: []string{"ns", "root", "both"}[k%3], seededOps: 3 + k%6})
+	}
+	for ci, c := range cases {
+		if ci%nshards != shard {
+			continue
+		}
+		caseID := fmt.Sprintf("ps:%d:%s:%d:%d:%d", ci, c.scope, c.before, c.rootRot, c.seededOps)
+		if !kit.WantCase(caseID) {
+			continue
+		}
+		rng := kit.NewRand(seed, 12_000_000+uint64(ci))
+		v := vBoot(t, vOpts{ShamirSeal: ci%2 == 0})
+		var steps []string
+		step := func(format string, a ...any) { steps = append(steps, fmt.Sprintf("%d:%s", len(steps), fmt.Sprintf(format, a...))) }
+		failed := false
+		viol := func(class, format string, a ...any) {
+			failed = true
+			r.Violate(class, caseID, fmt.Sprintf("[%s] ", caseID)+fmt.Sprintf(format, a...), map[string]any{"steps": steps, "shamir_root_seal": ci%2 == 0})
+		}
+		nsObj := &namespace.Namespace{Path: "c10p/"}
+		TestCoreCreateUnsealedNamespaces(&vT{t}, v.Core, nsObj)
+		nsObj, _ = v.Core.namespaceStore.GetNamespaceByPath(c10Root, "c10p/")
+		var scopes []*c10PromoScope
+		mk := func(name string, ns *namespace.Namespace) *c10PromoScope {
+			ps := &c10PromoScope{name: name, intact: true, entries: map[string][]byte{}}
+			if ns == nil {
+				ps.local = v.Core.barrier
+			} else {
+				ps.local = v.Core.sealManager.NamespaceBarrier(ns.Path)
+				ps.prefix = NamespaceStoragePathPrefix(ns)
+			}
+			kr, err := ps.local.Keyring()
+			if err != nil {
+				t.Fatalf("verif: keyring of %s: %v", name, err)
+			}
+			ps.remote = barrier.NewAESGCMBarrier(v.Core.physical, ns)
+			if err := ps.remote.Unseal(c10Root, TestKeyCopy(kr.RootKey())); err != nil {
+				t.Fatalf("verif: second instance of %s: %v", name, err)
+			}
+			return ps
+		}
+		if c.scope != "root" {
+			scopes = append(scopes, mk("namespace", nsObj))
+		}
+		if c.scope != "ns" {
+			scopes = append(scopes, mk("root", nil))
+		}
+		nput := 0
+		put := func(ps *c10PromoScope) {
+			nput++
+			k := fmt.Sprintf("%sc10ps/k%d", ps.prefix, nput)
+			val := rng.Bytes(12)
+			if err := ps.remote.Put(c10Root, &logical.StorageEntry{Key: k, Value: val}); err != nil {
+				viol("C10-put-failed", "%s: put on the active instance: %v", ps.name, err)
+				return
+			}
+			ps.entries[k] = val
+			step("%s: active instance writes %s", ps.name, strings.TrimPrefix(k, ps.prefix))
+		}
+		rotate := func(ps *c10PromoScope, upgrade bool) {
+			nt, err := ps.remote.Rotate(c10Root)
+			if err == nil && upgrade {
+				err = ps.remote.CreateUpgrade(c10Root, nt)
+			}
+			step("%s: active instance rotates the encryption key -> term %d (upgrade entry: %v) err=%v", ps.name, nt, upgrade, err)
+			if err != nil {
+				viol("C10-rotate-failed", "%s: %v", ps.name, err)
+				return
+			}
+			if !upgrade {
+				ps.intact = false
+			}
+			r.Count("rotations", 1)
+		}
+		rotateRoot := func(ps *c10PromoScope) {
+			nk := rng.Bytes(32)
+			err := ps.remote.RotateRootKey(c10Root, nk)
+			step("%s: active instance rotates the root key err=%v", ps.name, err)
+			if err != nil {
+				viol("C10-rotate-root-failed", "%s: %v", ps.name, err)
+				return
+			}
+			r.Count("root_rotations", 1)
+			r.Count("root_rotations:"+ps.name, 1)
+		}
+		for _, ps := range scopes {
+			put(ps)
+			if c.seededOps == 0 {
+				for i := 0; i < c.before && !failed; i++ {
+					rotate(ps, true)
+					put(ps)
+				}
+				if c.rootRot >= 1 && !failed {
+					rotateRoot(ps)
+					put(ps)
+				}
+				if c.rootRot == 2 && !failed {
+					rotate(ps, true)
+					put(ps)
+				}
+				continue
+			}
+			for i := 0; i < c.seededOps && !failed; i++ {
+				switch x := rng.Intn(10); {
+				case x < 4:
+					rotate(ps, rng.Chance(5, 6))
+				case x < 7:
+					rotateRoot(ps)
+				case x < 8:
+					err := ps.remote.SetRotationConfig(c10Root, barrier.KeyRotationConfig{MaxOperations: barrier.AbsoluteOperationMinimum + int64(rng.Intn(999)), Interval: 48 * time.Hour})
+					step("%s: active instance sets the rotation config err=%v", ps.name, err)
+				default:
+				}
+				put(ps)
+			}
+		}
+		if failed {
+			v.Close()
+			continue
+		}
+		// the node that will take over serves reads while it is behind
+		readBehind := func(ps *c10PromoScope, when string, must bool) bool {
+			kr, err := ps.local.Keyring()
+			if err != nil {
+				viol("C10-promotion-sequence-keyring-differs", "%s: Keyring() on the core's barrier %s: %v", ps.name, when, err)
+				return false
+			}
+			var ks []string
+			for k := range ps.entries {
+				ks = append(ks, k)
+			}
+			sort.Strings(ks)
+			for _, k := range ks {
+				pe, _ := v.Probe.Inner().Get(c10Root, k)
+				term := uint32(0)
+				if pe != nil && len(pe.Value) >= 4 {
+					term = binary.BigEndian.Uint32(pe.Value[:4])
+				}
+				got, gerr := ps.local.Get(c10Root, k)
+				if kr.TermKey(term) != nil || must {
+					if gerr != nil || got == nil || !bytes.Equal(got.Value, ps.entries[k]) {
+						viol("C10-promotion-sequence-entry-unreadable", "%s %s: Get(%s) on the core's barrier: err=%v found=%v; the entry is of term %d, the barrier's keyring holds terms up to %d (has that term: %v)", ps.name, when, strings.TrimPrefix(k, ps.prefix), gerr, got != nil, term, kr.ActiveTerm(), kr.TermKey(term) != nil)
+						return false
+					}
+					r.Count("entries_read_back", 1)
+				} else {
+					r.Count("reads_while_behind_failed_legitimately", 1)
+				}
+			}
+			return true
+		}
+		for _, ps := range scopes {
+			if !readBehind(ps, "before the take-over sequence", false) {
+				break
+			}
+		}
+		if failed {
+			v.Close()
+			continue
+		}
+		allIntact := true
+		for _, ps := range scopes {
+			allIntact = allIntact && ps.intact
+		}
+		err := v.Core.performKeyUpgrades(c10Root)
+		step("Core.performKeyUpgrades err=%v", err)
+		r.Eval(1)
+		r.Nontrivial(caseID)
+		switch {
+		case err != nil && allIntact:
+			// is the state the active instances left valid? a fresh instance must open with their root key
+			valid := true
+			for _, ps := range scopes {
+				rk, _ := ps.remote.Keyring()
+				var ns *namespace.Namespace
+				if ps.name == "namespace" {
+					ns = nsObj
+				}
+				f := barrier.NewAESGCMBarrier(v.Probe.Inner(), ns)
+				if rk == nil || f.Unseal(c10Root, TestKeyCopy(rk.RootKey())) != nil {
+					valid = false
+				} else {
+					_ = f.Seal()
+				}
+			}
+			viol("C10-promotion-sequence-failed-on-valid-state", "Core.performKeyUpgrades (what a node runs when it takes over) failed: %v; every upgrade entry from the node's term to the newest is present and the key state in storage is valid (a fresh barrier instance opens with the active instance's root key: %v)", err, valid)
+		case err != nil:
+			r.Count("take_over_refused_upgrade_entry_missing", 1)
+		default:
+			r.Count("take_over_sequences_ok", 1)
+			for _, ps := range scopes {
+				got, want := c10SnapBarrier(ps.local), c10SnapBarrier(ps.remote)
+				if !bytes.Equal(got.Root, want.Root) {
+					viol("C10-promotion-sequence-keyring-differs", "%s: after Core.performKeyUpgrades returned nil the core's barrier holds a different root key than the active instance (core %s, active instance %s)", ps.name, got, want)
+					break
+				}
+				if d := got.termsDiff(want); d != "" {
+					viol("C10-promotion-sequence-keyring-differs", "%s: after Core.performKeyUpgrades returned nil the core's keyring differs from the active instance's: %s (core %s, active instance %s)", ps.name, d, got, want)
+					break
+				}
+				r.Count("keyrings_identical_after_take_over", 1)
+				r.Count("keyrings_identical_after_take_over:"+ps.name, 1)
+				if !readBehind(ps, "after the take-over sequence", true) {
+					break
+				}
+				// its own write uses the newest term and the other instance reads it
+				k := ps.prefix + "c10ps/own"
+				if perr := ps.local.Put(c10Root, &logical.StorageEntry{Key: k, Value: []byte("own")}); perr != nil {
+					viol("C10-put-failed", "%s: put on the core's barrier after the take-over sequence: %v", ps.name, perr)
+					break
+				}
+				pe, _ := v.Probe.Inner().Get(c10Root, k)
+				if pe == nil || len(pe.Value) < 4 || binary.BigEndian.Uint32(pe.Value[:4]) != want.Active {
+					viol("C10-new-write-old-term", "%s: the core's write after the take-over sequence does not carry the newest term %d", ps.name, want.Active)
+					break
+				}
+				if out, gerr := ps.remote.Get(c10Root, k); gerr != nil || out == nil || string(out.Value) != "own" {
+					viol("C10-promotion-sequence-entry-unreadable", "%s: the active instance cannot read what the core wrote after its take-over sequence: %v", ps.name, gerr)
+					break
+				}
+			}
+		}
+		if ci < 2 {
+			r.Sample(map[string]any{"case": caseID, "steps": steps})
+		}
+		v.Close()
+		if r.NViolations() > 30 {
+			break
+		}
+	}
+	div := int64(nshards)
+	r.Require("take_over_sequences_ok", 35/div)
+	r.Require("keyrings_identical_after_take_over:namespace", 25/div)
+	r.Require("keyrings_identical_after_take_over:root", 25/div)
+	r.Require("root_rotations:namespace", 20/div)
+	r.Require("root_rotations:root", 20/div)
+	r.Require("reads_while_behind_failed_legitimately", 60/div)
+	r.Require("entries_read_back", 300/div)
 }
